@@ -37,3 +37,13 @@ package flight12
 // resumption" (flight4Parse sets state.SessionID = nil when a Certificate is presented, and SetSession is guarded by
 // len(state.SessionID) > 0): between the two points flight4Parse calls a dozen callees whose inferred write sets include the
 // State12 fields, so the engine cannot carry "SessionID is still nil" to the guard. Needs frame clauses on those callees.
+
+// "A resumed session yields fresh record keys (new randoms)": the server draws its hello random in every handshake it
+// starts, whatever the hello-verification setting - a constant server random makes the key block of a resumed session a
+// function of the client's random alone.
+//@ func flight0Generate
+//@ watch Random.Populate
+//@ ensures server-random-always-drawn: result2 == nil ==> ncalls("Random.Populate") == 1
+//@ ensures server-random-is-the-states: called("Random.Populate") ==> argAs("Random.Populate", 0, &state.Common.LocalRandom) == &state.Common.LocalRandom
+//@ ensures draw-failure-aborts: called("Random.Populate") && retErr("Random.Populate", 0) != nil ==> result2 != nil
+//@ end
